@@ -167,7 +167,8 @@ pub fn for_backends<T: Elem, Vis: BackendVisitor<T>>(word: &[X], level: u8, vis:
     }
     let offs: Vec<usize> = if level >= 1 { (0..8).collect() } else { vec![0, 6] };
     for off in offs {
-        let d = deque_with_head(&items, 8, off, filler.clone());
+        // capacity 8 for the short words; for longer series the capacity follows the length so that the ring still wraps
+        let d = deque_with_head(&items, n.max(8), off, filler.clone());
         let wrapped = !d.as_slices().1.is_empty();
         vis.visit(&format!("VecDeque(head={off}{})", if wrapped { ",wrapped" } else { "" }), &d);
     }
